@@ -108,15 +108,18 @@ CLAIMED = {
               "the exact length, selects/zero tests; avx2: lookups/selects). gf255_m51, clmul binary fields and zz32 have no obligations yet."),
     ),
     "C12": dict(
-        engine="llsym",
-        technique="symbolic execution of optimized LLVM IR; LIA with abstract partial products; z3 decides the GCD's linear-combination steps for all operands per sign case",
+        engine="llsym+polyid",
+        technique="symbolic execution of optimized LLVM IR (LIA with abstract partial products, BV; staged cuts located by sampled values) for the GCD's linear-combination steps and the square-root tails; interpretation of rustc MIR over an abstract field with an uninterpreted inverse (z3 NIA + sympy cofactors, all zero patterns) for batch inversion",
         category="model_checking",
         text=("The two linear-algebra kernels of the division/Legendre binary GCD -- lin (u*f+v*g mod q) and "
               "lindiv31abs (|a*f+b*g|/2^31 with sign) -- are decided exact for all operands and update factors on "
               "three field backends. The end-to-end statement x/y*y=x needs the convergence theorem of the "
-              "approximate GCD (eprint 2020/972) and is honestly outside a bounded solver check."),
+              "approximate GCD (eprint 2020/972) and is honestly outside a bounded solver check. batch_invert of five backends: result[i]*x[i] = 1 "
+              "or result[i] = 0 for every zero pattern at slice lengths 0..4 (0..8 and sub-batch size + 1 thorough), inversion as an uninterpreted "
+              "inverse. Square-root tails (GF255<19>, GF448, GFsecp256k1; three more thorough): for every candidate root the exponentiation may "
+              "produce, normalisation, even-root selection, the squaring check, the status word and the returned value are as documented."),
         design_ref="DESIGN.md 3 C12, 8",
-        note="Partial: step-level only; square roots, Legendre value, batch inversion, binary fields are not posed.",
+        note="Partial: step-level for division; exponent-chain correctness of the square roots (completeness for squares), the Legendre value, ModInt256 scalar sqrt and binary fields are not posed.",
     ),
     "C08": dict(
         engine="llsym",
